@@ -19,6 +19,7 @@ Functions:
 import hashlib
 import json
 import os
+import uuid
 
 from dataclasses import dataclass
 from pathlib import Path
@@ -699,7 +700,10 @@ def _download_from_resources(
         # recognized as a cache file. Only a complete file is moved to its
         # final name, so that an interrupted download is never picked up as a
         # cache entry (e.g. when the cache is re-initialized from disk).
-        temporary_filepath = cache_miss.filepath + ".part"
+        # The temporary name is unique so that two concurrent downloads of the same
+        # uri (e.g. a retry while workers of a failed request are still running)
+        # never write to the same file.
+        temporary_filepath = f"{cache_miss.filepath}.{uuid.uuid4().hex}.part"
         try:
             cache_miss.download_function(cache_miss.uri, temporary_filepath)
             cache_miss.post_process_function(temporary_filepath)
